@@ -209,7 +209,7 @@ func hasID(line string, id string) bool {
 func liveIO(ver string, text string) string {
 	inR, inW := io.Pipe()
 	outR, outW := io.Pipe()
-	ctx, cancel := context.WithTimeout(context.Background(), 8*time.Second)
+	ctx, cancel := context.WithTimeout(context.Background(), 4*time.Second)
 	defer cancel()
 	ss, err := liveServer().Connect(ctx, &IOTransport{Reader: inR, Writer: outW}, nil)
 	if err != nil {
@@ -310,7 +310,7 @@ func (f *fakeStreamable) RoundTrip(req *http.Request) (*http.Response, error) {
 
 // liveCli: a streamable client session whose ping is answered with the frame.
 func liveCli(kind, text string) string {
-	ctx, cancel := context.WithTimeout(context.Background(), 8*time.Second)
+	ctx, cancel := context.WithTimeout(context.Background(), 6*time.Second)
 	defer cancel()
 	c := NewClient(&Implementation{Name: "verif", Version: "0"}, nil)
 	cs, err := c.Connect(ctx, &StreamableClientTransport{Endpoint: "http://verif.invalid/mcp", HTTPClient: &http.Client{Transport: &fakeStreamable{kind: kind, frame: text}},
@@ -318,7 +318,7 @@ func liveCli(kind, text string) string {
 	if err != nil {
 		return "setup-error"
 	}
-	pctx, pcancel := context.WithTimeout(ctx, 4*time.Second)
+	pctx, pcancel := context.WithTimeout(ctx, 3*time.Second)
 	defer pcancel()
 	err = cs.Ping(pctx, nil)
 	go cs.Close()
